@@ -82,6 +82,7 @@ Section Sim.
     reflexivity. Qed.
   Lemma walk_v_sim : P 0 -> phi 0 = 0 -> walk_v t v' = walk_v t v.
   Proof. intros H0 E0. unfold walk_v. rewrite <- E0.
+    rewrite (w_times_sim 0 H0).
     rewrite (w_children_sim 0 s_data _ (w_block t v) H0) by apply w_block_sim.
     rewrite (w_children_sim 0 s_metadata _ (w_section t v walk_fuel) H0) by apply w_section_sim.
     rewrite E0. reflexivity. Qed.
